@@ -74,7 +74,89 @@ fn index_ok(v: &Value) -> bool {
     }
 }
 
+
+/// `ke | <object value> | <ops>`: canonicalize, edit the root object, canonicalize again.
+/// ops (space separated): `pf:<hexkey>:<hexnum>` push_front, `pb:` push, `in:` insert,
+/// `if:` insert_front, `rm:<hexkey>` remove, `ra:<i>` remove_at, `st` sort, `cl` clone-and-replace,
+/// `cn` canonicalize in between.  A value's canonical form may not depend on its history.
+fn apply_edit(o: &mut Object, op: &str) {
+    let p: Vec<&str> = op.split(':').collect();
+    let num = |h: &str| Value::Number(json_syntax::NumberBuf::new(parse_hex_string(h).into_bytes().into()).unwrap());
+    match p[0] {
+        "pf" => {
+            o.push_front(parse_hex_string(p[1]).as_str().into(), num(p[2]));
+        }
+        "pb" => {
+            o.push(parse_hex_string(p[1]).as_str().into(), num(p[2]));
+        }
+        "in" => {
+            if let Some(it) = o.insert(parse_hex_string(p[1]).as_str().into(), num(p[2])) {
+                drop(it);
+            }
+        }
+        "if" => {
+            drop(o.insert_front(parse_hex_string(p[1]).as_str().into(), num(p[2])));
+        }
+        "rm" => {
+            let k = parse_hex_string(p[1]);
+            drop(o.remove(k.as_str()));
+        }
+        "ra" => {
+            o.remove_at(p[1].parse().unwrap());
+        }
+        "st" => o.sort(),
+        "cl" => {
+            let c = o.clone();
+            *o = c;
+        }
+        "cn" => o.canonicalize(),
+        _ => panic!("bad edit"),
+    }
+}
+
+fn eval_ke(line: &str) -> String {
+    let line = line.to_string();
+    let dec = std::panic::catch_unwind(move || {
+        let t = toks(&line);
+        assert_eq!(t[1], "|");
+        let (a, r) = dec_value(&t[2..]);
+        assert_eq!(r[0], "|");
+        let ops: Vec<String> = r[1..].iter().map(|x| x.to_string()).collect();
+        // malformed operations (a shrinking candidate) are a bad case, not an implementation fault
+        for op in &ops {
+            let p: Vec<&str> = op.split(':').collect();
+            match p[0] {
+                "pf" | "pb" | "in" | "if" => {
+                    assert!(p.len() == 3);
+                    assert!(json_syntax::NumberBuf::new(parse_hex_string(p[2]).into_bytes().into()).is_ok());
+                }
+                "rm" => assert!(p.len() == 2),
+                "ra" => assert!(p.len() == 2 && p[1].parse::<usize>().is_ok()),
+                "st" | "cl" | "cn" => assert!(p.len() == 1),
+                _ => panic!("bad op"),
+            }
+        }
+        (a, ops)
+    });
+    let Ok((v, ops)) = dec else { return "BADCASE ke".into() };
+    guarded(move || {
+        let mut v = v;
+        v.canonicalize();
+        if let Value::Object(o) = &mut v {
+            for op in &ops {
+                apply_edit(o, op);
+            }
+        }
+        let edited = value_str(&v);
+        v.canonicalize();
+        format!("{} index={} edited={}", hex_str(&v.compact_print().to_string()), index_ok(&v) as u8, edited)
+    })
+}
+
 pub fn eval_c09(line: &str) -> String {
+    if line.starts_with("ke ") {
+        return eval_ke(line);
+    }
     if line.starts_with("kn ") {
         let t = toks(line);
         let s = parse_hex_string(t[1]);
@@ -92,6 +174,9 @@ pub fn eval_c09(line: &str) -> String {
 }
 
 pub fn eval_c10(line: &str) -> String {
+    if line.starts_with("ke ") {
+        return eval_ke(line);
+    }
     if line.starts_with("k ") {
         let Some(v) = decode1(line) else { return format!("BADCASE {line}") };
         return guarded(move || {
@@ -336,9 +421,81 @@ const RFC_NUMBERS: [&str; 30] = [
     "1E30", "4.50", "2e-3", "0.000000000000000000000000001",
 ];
 
+
+/// canonicalize / edit / canonicalize histories on objects (root object edited between two
+/// canonicalizations; fresh keys for pushes so the value stays I-JSON)
+fn gen_histories(out: &mut Out, rng: &mut Rng, n: usize) {
+    let pool = key_pool();
+    for _ in 0..n {
+        let mut r = rng.fork();
+        let m = r.range(0, 5);
+        let mut ks: Vec<usize> = vec![];
+        while ks.len() < m {
+            let k = r.below(pool.len());
+            if !ks.contains(&k) {
+                ks.push(k);
+            }
+        }
+        let ents: Vec<String> = ks
+            .iter()
+            .enumerate()
+            .map(|(i, k)| {
+                if i == 1 && r.chance(1, 3) {
+                    format!("${} {{ $7a #31 $61 [ #32 ] }}", hex_str(&pool[*k]))
+                } else {
+                    format!("${} #{}", hex_str(&pool[*k]), hex_str(&format!("{}.0", i)))
+                }
+            })
+            .collect();
+        let obj = if ents.is_empty() { "{ }".to_string() } else { format!("{{ {} }}", ents.join(" ")) };
+        let mut ops: Vec<String> = vec![];
+        let mut fresh = 0usize;
+        let mut len = m;
+        for _ in 0..r.range(1, 5) {
+            let existing = if ks.is_empty() { None } else { Some(hex_str(&pool[*r.pick(&ks)])) };
+            let newkey = |fresh: &mut usize, r: &mut Rng| {
+                *fresh += 1;
+                // fresh keys that sort before, between and after the pool keys
+                let c = *r.pick(&["", "0", "M", "z", "\u{e001}", "\u{10001}"]);
+                hex_str(&format!("{c}n{fresh}"))
+            };
+            let op = match r.below(10) {
+                0 | 1 | 2 => {
+                    len += 1;
+                    format!("pf:{}:{}", newkey(&mut fresh, &mut r), hex_str("7"))
+                }
+                3 | 4 => {
+                    len += 1;
+                    format!("pb:{}:{}", newkey(&mut fresh, &mut r), hex_str("1e1"))
+                }
+                5 => match &existing {
+                    Some(k) => format!("in:{}:{}", k, hex_str("0.5")),
+                    None => "st".into(),
+                },
+                6 => {
+                    len += 1;
+                    format!("if:{}:{}", newkey(&mut fresh, &mut r), hex_str("-0"))
+                }
+                7 => match &existing {
+                    Some(k) => format!("rm:{}", k),
+                    None => "cl".into(),
+                },
+                8 if len > 0 => {
+                    len -= 1;
+                    format!("ra:{}", r.below(len + 1))
+                }
+                _ => (*r.pick(&["cn", "st", "cl"])).to_string(),
+            };
+            ops.push(op);
+        }
+        out.case_str(&format!("ke | {} | {}", obj, ops.join(" ")));
+    }
+}
+
 pub fn generate_c09(args: &Args, out: &mut Out) {
     let mut rng = Rng::new(args.seed);
     let full = args.thorough();
+    gen_histories(out, &mut rng, if full { 20000 } else { 600 });
     for n in RFC_NUMBERS {
         out.case(|| format!("kn {}", hex_str(n)));
     }
@@ -459,6 +616,7 @@ fn respell_value(r: &mut Rng, v: &Value) -> Value {
 pub fn generate_c10(args: &Args, out: &mut Out) {
     let mut rng = Rng::new(args.seed ^ 0xC10);
     let full = args.thorough();
+    gen_histories(out, &mut rng, if full { 20000 } else { 600 });
     let nd = if full { 40000 } else { 1000 };
     for _ in 0..nd {
         let mut r = rng.fork();
